@@ -44,6 +44,7 @@ func (a *allocator) GetPage(requestOrderID uint32) []byte {
 
 	// put result in used pages
 	a.used[requestOrderID] = append(a.used[requestOrderID], result)
+	verifHook(vhAllocGet, 0, requestOrderID, result)
 
 	return result
 }
@@ -52,6 +53,7 @@ func (a *allocator) GetPage(requestOrderID uint32) []byte {
 func (a *allocator) ReleasePages(requestOrderID uint32) {
 	a.Lock()
 	defer a.Unlock()
+	verifHook(vhAllocRelease, 0, requestOrderID, nil)
 
 	if used := a.used[requestOrderID]; len(used) > 0 {
 		a.available = append(a.available, used...)
@@ -64,6 +66,7 @@ func (a *allocator) ReleasePages(requestOrderID uint32) {
 func (a *allocator) Free() {
 	a.Lock()
 	defer a.Unlock()
+	verifHook(vhAllocFree, 0, 0, nil)
 
 	a.available = nil
 	a.used = make(map[uint32][][]byte)
